@@ -8,7 +8,7 @@
    data because the code observes it (current file name, streams to close when a read aborts). *)
 From Coq Require Import List ZArith Bool.
 Import ListNotations.
-From LC Require Import Base Tree ScanAction FlexEngine Tokens ApiStep.
+From LC Require Import Base Tree Fp ScanAction FlexEngine Tokens ApiStep.
 From LC.gen Require Import Consts.
 Local Open Scope Z_scope.
 
@@ -23,10 +23,12 @@ Definition split_sign (s : bytes) : bool * bytes :=
 
 Definition is_octal_digit (c : Z) : bool := (48 <=? c) && (c <=? 55).
 
-(* libconfig_parse_integer: strtoll(s, &end, 0) with "*end || errno" as failure.
-   The lexeme is [-+]?[0-9]+ *)
+(* libconfig_parse_integer: strtoll(s, &end, 0), an optional L or LL suffix, then "*end || errno" as
+   failure.  The lexeme is [-+]?[0-9]+(L(L)?)? *)
 Definition parse_integer (s : bytes) : option Z :=
-  let '(neg, ds) := split_sign s in
+  let '(neg, r) := split_sign s in
+  let '(ds, suffix) := span is_digit r in
+  let suffix_ok := match suffix with [] | [76] | [76; 76] => true | _ => false end in
   let v :=
     match ds with
     | 48 :: _ :: _ =>                       (* leading 0, more digits: octal *)
@@ -35,29 +37,30 @@ Definition parse_integer (s : bytes) : option Z :=
     end in
   match v with
   | None => None
-  | Some m => let z := if neg then - m else m in if in_int64 z then Some z else None
+  | Some m => let z := if neg then - m else m in
+              if in_int64 z && suffix_ok then Some z else None
   end.
 
-(* atoll(s) = strtoll(s, NULL, 10): decimal digits after an optional sign, saturating *)
-Definition atoll (s : bytes) : Z :=
-  let '(neg, r) := split_sign s in
-  let '(ds, _) := span is_digit r in
-  let m := digits_val 10 ds in
-  let z := if neg then - m else m in
-  if z <? LLONG_MIN then LLONG_MIN else if LLONG_MAX <? z then LLONG_MAX else z.
-
-(* strtoul / strtoull (s, NULL, 16) on a lexeme 0[xX]hex+...: saturating at 2^64-1 *)
-Definition strtoull16 (s : bytes) : Z :=
+(* libconfig_parse_hex64: strtoull(s, NULL, 16) on a lexeme 0[xX]hex+...; None = ERANGE (more than
+   64 bits) *)
+Definition parse_hex64 (s : bytes) : option Z :=
   match s with
   | _ :: _ :: r =>
       let '(ds, _) := span is_xdigit r in
       let m := digits_val 16 ds in
-      if ULLONG_MAX <? m then ULLONG_MAX else m
-  | _ => 0
+      if ULLONG_MAX <? m then None else Some m
+  | _ => Some 0
   end.
 
-Definition hex_value (s : bytes) : Z := to_int32 (strtoull16 s).       (* assigned to int *)
-Definition hex64_value (s : bytes) : Z := to_int64 (strtoull16 s).     (* assigned to long long *)
+(* the {hex} action: more than 32 bits is an error; otherwise the pattern is assigned to an int *)
+Definition hex_value (s : bytes) : option Z :=
+  match parse_hex64 s with
+  | Some m => if 4294967295 <? m then None else Some (to_int32 m)
+  | None => None
+  end.
+(* the {hex64} action: the pattern is assigned to a long long *)
+Definition hex64_value (s : bytes) : option Z :=
+  match parse_hex64 s with Some m => Some (to_int64 m) | None => None end.
 
 Fixpoint until_nul (s : bytes) : bytes :=
   match s with
@@ -190,10 +193,10 @@ Section Lex.
               let '(tk, st2) := emit st1 prev_line TkError (Some (err_bad_include, Some f, prev_line)) in
               ([tk], StopError, st2)
           | Some FDir =>
-              (* fopen succeeds on a directory; the first read fails: YY_FATAL_ERROR *)
-              let st2 := add_ev st1 (LvOpen f) in
-              ([], StopFatal 2,
-               mkLS (l_cond st2) (l_acc st2) (l_names st2) (f :: l_open st2) (l_files st2) (l_pending st2))
+              (* fopen succeeds on a directory; fstat says so: closed again, reported like a missing file *)
+              let st1' := add_ev (add_ev st1 (LvOpen f)) (LvClose f) in
+              let '(tk, st2) := emit st1' prev_line TkError (Some (err_bad_include, Some f, prev_line)) in
+              ([tk], StopError, st2)
           | Some (FFile content) =>
               let st2 := add_ev st1 (LvOpen f) in
               let st3 := mkLS (l_cond st2) (l_acc st2) (l_names st2) (f :: l_open st2) (l_files st2)
@@ -251,16 +254,35 @@ Section Lex.
                    | ARet t => tokret (TkP t)
                    | ABool v => tokret (TkBool v)
                    | AName => tokret (TkName text)
-                   | AFloat => tokret (TkFloat (atof text))
+                   | AFloat =>
+                       let b := atof text in
+                       if b64_is_inf b then
+                         let '(tk, st') := emit st line' TkError None in ([tk], StopError, st', line')
+                       else tokret (TkFloat b)
                    | AInteger =>
                        match parse_integer text with
                        | None =>
                            let '(tk, st') := emit st line' TkError None in ([tk], StopError, st', line')
                        | Some v => tokret (if in_int v then TkInt v else TkInt64 v)
                        end
-                   | AInteger64 => tokret (TkInt64 (atoll text))
-                   | AHex => tokret (TkHex (hex_value text))
-                   | AHex64 => tokret (TkHex64 (hex64_value text))
+                   | AInteger64 =>
+                       match parse_integer text with
+                       | None =>
+                           let '(tk, st') := emit st line' TkError None in ([tk], StopError, st', line')
+                       | Some v => tokret (TkInt64 v)
+                       end
+                   | AHex =>
+                       match hex_value text with
+                       | None =>
+                           let '(tk, st') := emit st line' TkError None in ([tk], StopError, st', line')
+                       | Some v => tokret (TkHex v)
+                       end
+                   | AHex64 =>
+                       match hex64_value text with
+                       | None =>
+                           let '(tk, st') := emit st line' TkError None in ([tk], StopError, st', line')
+                       | Some v => tokret (TkHex64 v)
+                       end
                    | AEcho => continue (add_ev st (LvStdout text))
                    | AUnknown => ([], StopStuck, st, line')
                    | AIncludeEnd =>
@@ -289,7 +311,13 @@ Section Lex.
                                  let '(tk, st') := emit st3 line' TkError
                                                      (Some (err_bad_include, cur_name st3, line')) in
                                  ([tk], StopError, st', line')
-                             | Some _ =>
+                             | Some FDir =>
+                                 (* a directory: opened, recognised by fstat, closed; same report *)
+                                 let st3d := add_ev (add_ev st3 (LvOpen f1)) (LvClose f1) in
+                                 let '(tk, st') := emit st3d line' TkError
+                                                     (Some (err_bad_include, cur_name st3d, line')) in
+                                 ([tk], StopError, st', line')
+                             | Some (FFile _) =>
                                  match d with
                                  | O => ([], StopStuck, st3, line')
                                  | S d' =>
